@@ -1,4 +1,5 @@
 from pyvc.runner import Prop, Fn, Lem, Ground, Native
+from props.typing_common import quantifier_ctor_tasks
 
 _P = 'hpl.ast.properties.HplProperty.'
 EXPR = ['HplSet', 'HplRange', 'HplLiteral', 'HplThisMessage', 'HplVarReference', 'HplQuantifier',
@@ -6,13 +7,15 @@ EXPR = ['HplSet', 'HplRange', 'HplLiteral', 'HplThisMessage', 'HplVarReference',
 
 PROP = Prop(
     'C02',
-    modules=['contracts.sanity_c02', 'contracts.events_c02'],
+    modules=['contracts.sanity_c02', 'contracts.events_c02', 'contracts.quantifier_ctor'],
     tasks=[
         Fn(_P + '_check_refs_defined', safety_tag='C02'),
         Fn(_P + '_check_duplicates', safety_tag='C02'),
         Fn(_P + '__init__', safety_tag='C02'),
         Fn('hpl.ast.events.HplEventDisjunction.__init__', safety_tag='C02'),
         Lem('concat_nth'), Lem('alts_are_simple'),
+        # clause (iv): the quantifier constructor (its HplSanityError clause is tagged C02)
+        *quantifier_ctor_tasks('C02'),
         # lemmas of the reference queries (C15) that the query tasks below use as hints
         Lem('mentioned_unbound_is_free_list'), Lem('mentioned_unbound_is_free'),
         # the queries the acceptance rule is computed from (callee contracts of the chain above)
@@ -35,9 +38,9 @@ PROP = Prop(
     assumptions=[
         'A-ATTRS: the attrs-generated __init__ text (read from linecache on every run) is what runs; it ends in __attrs_post_init__ -> sanity_check',
         'event/predicate query contracts (C15) are used at the call sites (proved there)',
-        'clause (iv) quantifier hygiene is enforced by the constructor of HplQuantifier: covered here by the bounded checks only (proof of that constructor is part of C03-C05 work)',
+        'clause (iv) quantifier hygiene is enforced by the constructor of HplQuantifier, proved here as well (contracts/quantifier_ctor.py): it raises HplSanityError only if hygiene is broken and a returned quantifier is hygienic',
         'reading: two alternatives of one disjunction binding the same alias are not a re-binding (DESIGN section 6, C02)',
     ],
-    explanation='HplProperty construction (generated __init__ -> sanity_check -> helpers) raises HplSanityError iff not sane(scope, pattern), proved for all scopes/patterns/events; clause (iii): HplEventDisjunction construction raises iff a channel repeats (loop invariant); clause (iv) bounded',
+    explanation='HplProperty construction (generated __init__ -> sanity_check -> helpers) raises HplSanityError iff not sane(scope, pattern), proved for all scopes/patterns/events; clause (iii): HplEventDisjunction construction raises iff a channel repeats (loop invariant); clause (iv): HplQuantifier construction raises HplSanityError only if the variable is used in the domain, re-bound or unused in the body, and returns only hygienic quantifiers (two validator loops under invariants)',
     trusted_base=['z3 5.1.0', 'cvc5 1.0.3', 'pyvc symbolic executor', 'attrs 24.3 generated __init__'],
 )
